@@ -148,7 +148,27 @@ def gen_leaf(rng, cls=None, n=None, **opt):
         L['c3'] = F(1, 2)
       if (v // 4) % 2 == 0 and L['c2'] == 0:
         L['c2'] = L['c1'] / 2
+  add_late_settings(L)
   return L
+
+
+def add_late_settings(L):
+  """Settings assigned through the setters AFTER construction (the public setters accept them, so the device must behave like a
+  freshly built twin): `post_set` = parameters left at their defaults by the constructor call and assigned afterwards;
+  `rebound` = built with a wider bounds box (same signs), optionally used once (`warm`: project/cost/deriv/constraints), then
+  re-bounded to the target.  Chosen deterministically from the content of L so that the draws of the main generator are unchanged."""
+  import hashlib
+  import random as _r
+  r2 = _r.Random(int(hashlib.sha256(repr(sorted((k, repr(v)) for k, v in L.items())).encode()).hexdigest()[:12], 16))
+  cls = L['cls']
+  if 'post_set' not in L and r2.random() < 0.3:
+    opts = {'IDevice': [['a'], ['b'], ['c'], ['a', 'c'], ['a', 'b', 'c']], 'IDevice2': [['p_h'], ['p_l', 'p_h']],
+            'CDevice2': [['p_h'], ['p_l', 'p_h']], 'CDevice': [['a'], ['b'], ['a', 'b']]}.get(cls)
+    if opts:
+      L['post_set'] = r2.choice(opts)
+  if r2.random() < 0.25 and not (cls == 'CDevice2' and not L.get('cbounds')):
+    L['rebound'] = True
+    L['warm'] = r2.random() < 0.6
 
 
 # ---- preference-function ASTs -----------------------------------------------------------------------
@@ -287,7 +307,40 @@ def py_cbounds(cb, kind):
   return [(float(a), float(b), s, e) for a, b, s, e in cb]
 
 
+def widen(bounds):
+  """A box containing `bounds` with the same signs: low - |low|, high + |high| per slot."""
+  return [(a - abs(a), b + abs(b)) for a, b in bounds]
+
+
+def warm_up(d):
+  """Use the device once before it is re-bounded (any caches it keeps must not survive the assignment)."""
+  z = np.zeros(len(d))
+  for f in (lambda: d.project(z.copy()), lambda: d.cost(z, 0), lambda: d.deriv(z, 0), lambda: [c['fun'](z) for c in d.constraints]):
+    try:
+      f()
+    except Exception:
+      pass
+
+
 def build(L):
+  if L.get('rebound'):
+    L0 = dict(L)
+    L0['bounds'] = widen(L['bounds'])
+    L0['rebound'] = False
+    d = build(L0)
+    if L.get('warm'):
+      warm_up(d)
+    d.bounds = np.array(fl([list(b) for b in L['bounds']]))
+    return d
+  if L.get('post_set') and L['cls'] != 'SDevice':
+    L0 = dict(L)
+    post = [k for k in ('a', 'b', 'c', 'p_l', 'p_h') if k in L['post_set']]
+    L0['post_set'] = None
+    L0['omit'] = post
+    d = build(L0)
+    for k in post:
+      setattr(d, k, py_param(L[k]))
+    return d
   import device_kit as dk
   cls, n = L['cls'], L['n']
   bounds = np.array(fl([list(b) for b in L['bounds']]))
@@ -297,14 +350,18 @@ def build(L):
     return dk.Device(i, n, bounds, cb)
   if cls == 'PVDevice':
     return dk.PVDevice(i, n, bounds, cb)
+  omit = L.get('omit') or []
+
+  def kwargs(**kw):
+    return {k: v for k, v in kw.items() if k not in omit}
   if cls == 'CDevice':
-    return dk.CDevice(i, n, bounds, cb, a=float(L['a']), b=float(L['b']))
+    return dk.CDevice(i, n, bounds, cb, **kwargs(a=float(L['a']), b=float(L['b'])))
   if cls == 'CDevice2':
-    return dk.CDevice2(i, n, bounds, cb, p_l=float(L['p_l']), p_h=float(L['p_h']))
+    return dk.CDevice2(i, n, bounds, cb, **kwargs(p_l=float(L['p_l']), p_h=float(L['p_h'])))
   if cls == 'IDevice':
-    return dk.IDevice(i, n, bounds, cb, a=py_param(L['a']), b=py_param(L['b']), c=py_param(L['c']))
+    return dk.IDevice(i, n, bounds, cb, **kwargs(a=py_param(L['a']), b=py_param(L['b']), c=py_param(L['c'])))
   if cls == 'IDevice2':
-    return dk.IDevice2(i, n, bounds, cb, p_l=py_param(L['p_l']), p_h=py_param(L['p_h']))
+    return dk.IDevice2(i, n, bounds, cb, **kwargs(p_l=py_param(L['p_l']), p_h=py_param(L['p_h'])))
   if cls == 'GDevice':
     return dk.GDevice(i, n, bounds, cb, cost_coeffs=fl(L['cost_coeffs']))
   if cls == 'SDevice':
@@ -312,7 +369,7 @@ def build(L):
     kw = {k: float(L[k]) for k in ('c1', 'c2', 'c3', 'capacity', 'damage_depth', 'start', 'reserve', 'efficiency', 'sustainment')}
     if rc is not None:
       kw['rate_clip'] = tuple(None if v is None else float(v) for v in rc)
-    post = {k: kw.pop(k) for k in L.get('post_set', [])}
+    post = {k: kw.pop(k) for k in (L.get('post_set') or [])}
     d = dk.SDevice(i, n, bounds, cb, **kw)
     for k, v in post.items():
       setattr(d, k, v)
@@ -439,7 +496,7 @@ def leaf_from_json(J):
   if L.get('cbounds') is not None:
     L['cbounds'] = [(F(a), F(b), int(s), int(e)) for a, b, s, e in L['cbounds']]
   for k, v in list(L.items()):
-    if k in ('n', 'cls', 'id', 'cb_kind', 'bounds', 'cbounds', 'f', 'ucons', 'rate_clip', 'post_set'):
+    if k in ('n', 'cls', 'id', 'cb_kind', 'bounds', 'cbounds', 'f', 'ucons', 'rate_clip', 'post_set', 'rebound', 'warm', 'omit'):
       continue
     if isinstance(v, int) and not isinstance(v, bool):
       L[k] = F(v)
